@@ -36,9 +36,11 @@ VARIABLES status, config, hist, ctx, output,      \* core state (quiescent betwe
           busySeq,       \* creation order of the slow action's sleep handle
           seq,           \* creation counter of call_at handles
           deferred,      \* log entries of the suspended macrostep that happen when the slow action ends
+          susp,          \* <<>> or <<C>>: C is the configuration the suspended macrostep ends in (while it is
+                         \* suspended `config` is the intermediate one: the states whose exit has completed are gone)
           ghost,         \* [entered: state -> time of last entry, ep: state -> activation count, fired: set of <<state, key, ep>>]
           out, lastStep
-svars == <<mi, status, config, hist, ctx, output, queue, now, timers, svcs, busy, busySeq, seq, deferred, ghost, out, lastStep>>
+svars == <<mi, status, config, hist, ctx, output, queue, now, timers, svcs, busy, busySeq, seq, deferred, susp, ghost, out, lastStep>>
 
 SPack == [config |-> config, hist |-> hist, status |-> status, ctx |-> ctx, queue |-> queue,
           out |-> <<>>, err |-> NoErr, rd |-> 0, output |-> output, gv |-> <<>>, faults |-> {}, halt |-> FALSE, slow |-> 0]
@@ -75,15 +77,33 @@ RunToIdle(st) == IF busy > 0 THEN st ELSE AsyncLoop(st, st.gv, D.fuel)
 
 SlowNames == UNION {{D.trans[t].acts[i].name : i \in {x \in 1..Len(D.trans[t].acts) : D.trans[t].acts[x].kind = "slow"}}
                     : t \in 1..Len(D.trans)}
+             \cup UNION {{D.exit[s][i].name : i \in {x \in 1..Len(D.exit[s]) : D.exit[s][x].kind = "slow"}} : s \in D.states}
+\* the state whose EXIT action list contains the slow action `name` (NONE: a transition action)
+SlowExitOwner(name) == IF \E s \in D.states : \E i \in 1..Len(D.exit[s]) : D.exit[s][i].name = name
+                       THEN CHOOSE s \in D.states : \E i \in 1..Len(D.exit[s]) : D.exit[s][i].name = name ELSE NONE
+\* The configuration while a macrostep is suspended in the slow action that ends `prefix`.  _exit_states handles
+\* one state at a time: cancel its tasks, run its exit actions, remove it; transition actions run when every
+\* state of the exit set is gone; nothing has been entered yet (slow ENTRY actions are not modelled).
+MidConfig(base, prefix) ==
+  LET ots == {i \in 1..Len(prefix) : prefix[i].k = "on_transition"}
+      last == IF ots = {} THEN 0 ELSE CHOOSE i \in ots : \A x \in ots : x <= i
+      start == IF last = 0 THEN base ELSE prefix[last].c
+      gone == {prefix[i].a : i \in {x \in (last + 1)..Len(prefix) : prefix[x].k = "cancel"}}
+  IN start \ (gone \ {SlowExitOwner(prefix[Len(prefix)].a)})
 \* index of the slow action's own log entry in a step that got suspended (0: none)
 SlowCut(o) == LET I == {i \in 1..Len(o) : o[i].k = "act" /\ o[i].a \in SlowNames}
               IN IF I = {} THEN 0 ELSE CHOOSE i \in I : \A x \in I : x <= i
 
 Commit(st, step, t, tm, bz, bzs, sq) ==
-  LET b == Book(st.out, 1, [timers |-> tm, svcs |-> IF step.op = "stop" THEN {} ELSE svcs, seq |-> sq, g |-> ghost, t |-> t])
-      slowNow == st.slow > 0
+  LET slowNow == st.slow > 0
       cut == IF slowNow THEN SlowCut(st.out) ELSE 0
-  IN /\ config' = st.config /\ hist' = st.hist /\ status' = st.status /\ ctx' = st.ctx /\ output' = st.output
+      \* what the suspended macrostep does after the slow action (later exits, entries, arming) happens - and is
+      \* booked - when it resumes
+      nowOut == IF cut > 0 THEN SubSeq(st.out, 1, cut) ELSE st.out
+      b == Book(nowOut, 1, [timers |-> tm, svcs |-> IF step.op = "stop" THEN {} ELSE svcs, seq |-> sq, g |-> ghost, t |-> t])
+  IN /\ config' = (IF cut > 0 THEN MidConfig(config, nowOut) ELSE st.config)
+     /\ susp' = (IF cut > 0 THEN <<st.config>> ELSE IF bz = 0 THEN <<>> ELSE susp)
+     /\ hist' = st.hist /\ status' = st.status /\ ctx' = st.ctx /\ output' = st.output
      /\ queue' = st.queue
      /\ now' = t
      /\ timers' = b.timers
@@ -103,7 +123,7 @@ Init == /\ mi \in 1..Len(Machines)
         /\ status = "uninitialized" /\ config = {} /\ hist = [p \in {s \in Machines[mi].states :
               \E i \in 1..Len(Machines[mi].children[s]) : Machines[mi].kind[Machines[mi].children[s][i]] = "history"} |-> {}]
         /\ ctx = Machines[mi].ctx0 /\ output = NONE /\ queue = <<>>
-        /\ now = 0 /\ timers = {} /\ svcs = {} /\ busy = 0 /\ busySeq = 0 /\ seq = 1 /\ deferred = <<>>
+        /\ now = 0 /\ timers = {} /\ svcs = {} /\ busy = 0 /\ busySeq = 0 /\ seq = 1 /\ deferred = <<>> /\ susp = <<>>
         /\ ghost = [entered |-> Z0(Machines[mi].states), ep |-> Z0(Machines[mi].states), doneEp |-> <<>>]
         /\ out = <<>> /\ lastStep = [op |-> "init", ev |-> "", gv |-> <<>>, dt |-> 0]
 
@@ -142,7 +162,9 @@ FireDue(st, due, bz, gv) ==
                    st1 == Enqueue(Log(st, L("timer_fired", h.timer.owner, h.timer.key, {ToString(h.timer.seq)})), ev, "async")
                IN FireDue(st1, Tail(due), bz, gv)
        ELSE \* the slow action ends: the consumer resumes and runs until it blocks again
-          FireDue(AsyncLoop([Log(st, L("slow_end", "", "", {})) EXCEPT !.out = @ \o deferred], gv, D.fuel), Tail(due), 0, gv)
+          FireDue(AsyncLoop([Log(st, L("slow_end", "", "", {})) EXCEPT !.out = @ \o deferred,
+                                                                       !.config = IF susp = <<>> THEN @ ELSE susp[1]],
+                            gv, D.fuel), Tail(due), 0, gv)
 
 \* Sync engine: each timer is a thread blocked in Event.wait(delay); at expiry (in deadline, then creation
 \* order) the thread itself checks that the interpreter is running and the owner still active and then calls
@@ -213,7 +235,7 @@ Next == DStart \/ DSend \/ DWait \/ DAdvance \/ DAdvanceSync \/ DStop \/ DResolv
 Spec == Init /\ [][Next]_svars
 TimerView == {<<t.owner, t.key, t.due, Cardinality({u \in timers : u.seq < t.seq})>> : t \in timers}
 SvcView == {<<v.owner, v.inv, Cardinality({u \in svcs : u.seq < v.seq})>> : v \in svcs}
-View == <<mi, status, config, hist, ctx, output, queue, now, TimerView, SvcView, busy, ghost.entered>>
+View == <<mi, status, config, hist, ctx, output, queue, now, TimerView, SvcView, busy, susp, ghost.entered>>
 Horizon == now <= MaxNow /\ Len(queue) <= 3 /\ TLCGet("level") <= MaxDepth
 
 --------------------------------------------------------------------------
@@ -263,8 +285,10 @@ C08Step ==
                LET tm == CHOOSE t \in timers : t.due = NextDeadline
                    cands == SelectSeq(D.tix[tm.owner].after, LAMBDA x : D.trans[x].key = tm.key)
                    en == SelectSeq(cands, LAMBDA x : GTrue(D.trans[x].guard, config, lastStep'.gv))
+               \* (a transition that is suspended in a slow exit / transition action has fired: it completes at resume)
                IN Tag((tm.owner \in config /\ en # <<>>) =>
-                        \E i \in 1..Len(out') : out'[i].k = "on_transition" /\ out'[i].b = D.trans[en[1]].name,
+                        \/ \E i \in 1..Len(out') : out'[i].k = "on_transition" /\ out'[i].b = D.trans[en[1]].name
+                        \/ \E i \in 1..Len(deferred') : deferred'[i].k = "on_transition" /\ deferred'[i].b = D.trans[en[1]].name,
                       "not_fired_when_due_and_idle")
              ELSE {}
   IN walk \cup afterStop \cup due
@@ -331,11 +355,14 @@ OnS(p, v) == IF p \in PropSetS THEN v ELSE {}
 SProj == [config |-> config, hist |-> hist, status |-> status, ctx |-> ctx, output |-> output,
           queue |-> [i \in 1..Len(queue) |-> queue[i].type], now |-> now, busy |-> busy,
           timers |-> LET q == SortBy(timers, [t \in timers |-> t.seq]) IN [i \in 1..Len(q) |-> <<q[i].owner, q[i].key, q[i].due>>],
-          svcs |-> LET q == SortBy(svcs, [v \in svcs |-> v.seq]) IN [i \in 1..Len(q) |-> <<q[i].owner, q[i].inv>>]]
+          svcs |-> LET q == SortBy(svcs, [v \in svcs |-> v.seq]) IN [i \in 1..Len(q) |-> <<q[i].owner, q[i].inv>>],
+          \* identity of the state only (never compared with the engine): what the suspended macrostep still has to do
+          susp |-> susp, pend |-> [i \in 1..Len(deferred) |-> <<deferred[i].k, deferred[i].a, deferred[i].b>>]]
 SProj2 == [config |-> config', hist |-> hist', status |-> status', ctx |-> ctx', output |-> output',
            queue |-> [i \in 1..Len(queue') |-> queue'[i].type], now |-> now', busy |-> busy',
            timers |-> LET q == SortBy(timers', [t \in timers' |-> t.seq]) IN [i \in 1..Len(q) |-> <<q[i].owner, q[i].key, q[i].due>>],
-           svcs |-> LET q == SortBy(svcs', [v \in svcs' |-> v.seq]) IN [i \in 1..Len(q) |-> <<q[i].owner, q[i].inv>>]]
+           svcs |-> LET q == SortBy(svcs', [v \in svcs' |-> v.seq]) IN [i \in 1..Len(q) |-> <<q[i].owner, q[i].inv>>],
+           susp |-> susp', pend |-> [i \in 1..Len(deferred') |-> <<deferred'[i].k, deferred'[i].a, deferred'[i].b>>]]
 EmitS == PrintT(ToJson([mi |-> mi, from |-> SProj, step |-> lastStep', to |-> SProj2, out |-> out',
                         prop |-> [C08 |-> OnS("C08", C08Step),
                                   C09 |-> OnS("C09", C09Step),
